@@ -63,4 +63,16 @@ TEXT.update({
          "note": TN},
 })
 
+TEXT.update({
+ "C04": {"ref": "DESIGN 5 C04", "technique": "order-freedom as an invariant of the model-checked store (Den / LabelExact over every posting order); permuted program variants replayed and compared by TLC against the reference and against each other",
+         "level": "Flow A: the tree store and the FD store denote / label exactly the solutions of what was posted for EVERY posting order of the scopes. Flow B/C: every conjunction and disjunction of random eq/neq/FD/fresh/conde programs is permuted (all permutations for <= 3 goals), every variant is judged against the reference and all variants of a program against each other as multisets.",
+         "note": TN},
+ "C20": {"ref": "DESIGN 5 C20", "technique": "compounds are first-class terms of the TLA+ term algebra (model-checked MGU scope with compounds); compound programs replayed next to their tagged-list twins, judged by TLC",
+         "level": "The unification scope with compounds (Pair, Box1, Tuple, nested, mixed with lists) is model-checked for MGU/occurs-check and replayed on State; random eq/neq programs over named, unnamed, recursive, tuple and Option compounds and FD programs with compound query terms are executed next to their tagged-list encodings; TLC compares each with the reference and the two twins with each other after encoding.",
+         "note": TB},
+ "C24": {"ref": "DESIGN 5 C24", "technique": "sequence-level TLA+ definitions of the relations; goal-AST transcriptions model-checked against them (LibCorrect); ground-instance counting of recorded answers against the sequence-level relation, by TLC",
+         "level": "Lib.tla defines each relation on sequences; TLC checks that the specification's goal-AST definitions (evaluated by the reference semantics) have exactly those ground instances in every argument mode of the scope. The same mode instances and random ones run on the real relations; for every ground valuation of the test universe TLC counts the recorded answers having it as an instance and compares with the documented multiplicity (member: per position; member1 and the others: at most one; permute: membership).",
+         "note": TB + " Known finding (open): permute accepts sub-multisets; pinned by test_permute_1."},
+})
+
 NOT_APPLICABLE = {}
